@@ -72,7 +72,7 @@ def parse_args(personality, argv):
 def wait_gate(ctl):
     gate = ctl.get("gate")
     if gate:
-        t_end = time.monotonic() + float(ctl.get("gate_max", 30.0))
+        t_end = time.monotonic() + float(ctl.get("gate_max", 240.0))
         while not os.path.exists(gate) and time.monotonic() < t_end:
             time.sleep(0.01)
 
